@@ -516,7 +516,7 @@ impl Monitor for C12 {
             if let Ok(lx) = lex(text, true) {
                 for w in lx.tokens.windows(2) {
                     let t = lx.text(&w[0]);
-                    if (t == "-" || t == "-=") && w[1].leading.first().map(|tr| matches!(tr.kind, crate::reflua::lexer::TriviaKind::LineComment | crate::reflua::lexer::TriviaKind::LongComment)).unwrap_or(false) {
+                    if (t == "-" || t == "-=") && w[1].leading.iter().find(|tr| tr.kind != crate::reflua::lexer::TriviaKind::Whitespace).map(|tr| matches!(tr.kind, crate::reflua::lexer::TriviaKind::LineComment | crate::reflua::lexer::TriviaKind::LongComment)).unwrap_or(false) {
                         return format!("{}|minus-directly-followed-by-comment", signature);
                     }
                 }
